@@ -214,6 +214,8 @@ def run(ctx):
     quick = ctx.quick
     sks = L.skeletons(quick)
     ncpu = max(2, min(16, (os.cpu_count() or 4)))
+    if os.environ.get("C15_WORKERS"):
+        ncpu = max(2, int(os.environ["C15_WORKERS"]))
     mpctx = mp.get_context("fork")
     tmp = tempfile.TemporaryDirectory(prefix="c15_")
     t0 = time.time()
@@ -336,7 +338,7 @@ def run(ctx):
             ctx.count("gcc:ok" if ok else "gcc:error")
             if not ok:
                 c, h, r = texts[hh]
-                k = L.classify_gcc(first, err, c)
+                k = L.classify_gcc(first, err, c, r.get("prog"))
                 gcc_fail.setdefault(k, []).append((r, first, err, c, h))
     ctx.extra["t_gcc_s"] = round(time.time() - t2, 1)
     ctx.extra["distinct_accepted_texts"] = len(texts)
